@@ -17,7 +17,7 @@ def run(chk):
         if v:
             chk.violation(v["sig"], v["desc"], dict(kind="panic"))
             return
-        raise vlib.MachineryError("C17 driver failed:\n" + t["out"][-3000:])
+        raise vlib.driver_failed("C17 driver failed", t["out"])
     res = json.load(open(resf))
     for v in res["violations"] or []:
         chk.violation(v["sig"], v["desc"], dict(kind="c17", detail=v))
